@@ -29,10 +29,13 @@ def is_block(name):
     return name.startswith('AddOn')
 
 
+LIST_NAMES = ('Gradients', 'Thicknesses')     # list-valued parameters without a position: re-read from the raw line
+
+
 def _listlike(line):
-    """list-valued parameters are re-parsed from the raw line (Parameter.ReadParameter): leave their tail alone"""
+    """list-valued parameters are re-parsed from the raw line (Parameter.ReadParameter): their comment needs its '--'"""
     t = line[3].lstrip(',').strip()
-    return bool(t) and (t[0].isdigit() or t[0] in '+-.')
+    return line[1] in LIST_NAMES or (bool(t) and (t[0].isdigit() or t[0] in '+-.'))
 
 
 def render(lines, eol='\n', final=True):
@@ -64,11 +67,12 @@ def t_block(rnd, lines, first):
 
 
 def t_ws(rnd, lines):
-    out = []
+    out, seen = [], {}      # identical logical lines get the identical decoration: verbatim repeats stay verbatim
     for l in lines:
         if l[0] == 'p':
-            raw = f'{ws(rnd)}{l[1]}{ws(rnd)},{ws(rnd)}{l[2]}{ws(rnd)}{l[3]}{ws(rnd) if not l[3] else ""}'
-            out.append(l[:4] + (raw,))
+            if l[:4] not in seen:
+                seen[l[:4]] = f'{ws(rnd)}{l[1]}{ws(rnd)},{ws(rnd)}{l[2]}{ws(rnd)}{l[3]}{ws(rnd) if not l[3] else ""}'
+            out.append(l[:4] + (seen[l[:4]],))
         else:
             out.append(l)
     return out
@@ -83,10 +87,13 @@ def t_comment(rnd, lines):
         if rnd.random() < 0.3:
             out.append(('o', rnd.choice(['', '   ', '# ' + 'comment, with comma', '-- Gradient 1, 999', '*** Reservoir Depth, 1 ***',
                                          ' \t# indented', 'no comma here'])))
-        if l[0] == 'p' and not l[3] and rnd.random() < 0.7:
+        if l[0] == 'p' and not l[3] and not _listlike(l) and rnd.random() < 0.7:
             out.append(('p', l[1], l[2], ',' + rnd.choice(COMMENTS)))
         elif l[0] == 'p' and l[3] and not _listlike(l) and rnd.random() < 0.3:
             out.append(('p', l[1], l[2], l[3] + rnd.choice([', more', ' -- more', ','])))
+        elif l[0] == 'p' and _listlike(l) and '--' not in l[3]:
+            # list-valued line (Gradients, 50, 40): the comment needs its '--', but may then contain anything
+            out.append(('p', l[1], l[2], l[3] + rnd.choice([', -- per segment, 0.5 km each', ',-- 1, 2, 3', ',\t--note', ', -- a, b -- c, 7'])))
         else:
             out.append(l)
     return out
@@ -95,10 +102,13 @@ def t_comment(rnd, lines):
 def t_dup(rnd, lines, junk=('99999', '1e-3', 'junk', '-1', '0')):
     out = list(lines)
     params = [l for l in lines if l[0] == 'p']
-    for l in rnd.sample(params, min(len(params), rnd.randint(1, 4))):
+    for n, l in enumerate(rnd.sample(params, min(len(params), rnd.randint(2, 4)))):
         i = out.index(l)
         j = i if is_block(l[1]) else rnd.randint(0, i)
         out.insert(j, ('p', l[1], l[2] if is_block(l[1]) else rnd.choice(junk), ''))
+        if n % 2 == 0 and not is_block(l[1]):
+            # set / override / set back: the governing last line is character-for-character a repeat of an earlier one
+            out.insert(rnd.randint(0, j), l)
     return out
 
 
